@@ -26,6 +26,12 @@ pub enum CCall {
     QConn(K, K),
     /// one full bfs with a collecting for_each
     Walk(K),
+    /// one full dfs (path search for an absent target), forward and - directed flavours - transposed
+    Deep(K),
+    /// preorder and postorder node lists
+    Ord(K),
+    /// one full priority-first search (absent target), min and max
+    Prio(K),
 }
 
 impl CCall {
@@ -41,12 +47,15 @@ impl CCall {
             CCall::QDeg(..) => "q_deg",
             CCall::QConn(..) => "q_conn",
             CCall::Walk(..) => "walk",
+            CCall::Deep(..) => "dfs",
+            CCall::Ord(..) => "ord",
+            CCall::Prio(..) => "pfs",
         }
     }
     pub fn nodes(&self) -> Vec<K> {
         match *self {
             CCall::Connect(a, b) | CCall::TryConnect(a, b) | CCall::Disconnect(a, b) | CCall::QConn(a, b) => vec![a, b],
-            CCall::Isolate(a) | CCall::QDeg(a) | CCall::Walk(a) => vec![a],
+            CCall::Isolate(a) | CCall::QDeg(a) | CCall::Walk(a) | CCall::Deep(a) | CCall::Ord(a) | CCall::Prio(a) => vec![a],
         }
     }
     pub fn map(&self, f: &dyn Fn(K) -> K) -> CCall {
@@ -58,6 +67,9 @@ impl CCall {
             CCall::QDeg(a) => CCall::QDeg(f(a)),
             CCall::QConn(a, b) => CCall::QConn(f(a), f(b)),
             CCall::Walk(a) => CCall::Walk(f(a)),
+            CCall::Deep(a) => CCall::Deep(f(a)),
+            CCall::Ord(a) => CCall::Ord(f(a)),
+            CCall::Prio(a) => CCall::Prio(f(a)),
         }
     }
     pub fn short(&self) -> String {
@@ -69,6 +81,9 @@ impl CCall {
             CCall::QDeg(a) => format!("q_deg({})", a),
             CCall::QConn(a, b) => format!("q_conn({},{})", a, b),
             CCall::Walk(a) => format!("walk({})", a),
+            CCall::Deep(a) => format!("dfs({})", a),
+            CCall::Ord(a) => format!("ord({})", a),
+            CCall::Prio(a) => format!("pfs({})", a),
         }
     }
     pub fn parse(s: &str) -> Option<CCall> {
@@ -85,6 +100,9 @@ impl CCall {
             "q_deg" => CCall::QDeg(a),
             "q_conn" => CCall::QConn(a, b?),
             "walk" => CCall::Walk(a),
+            "dfs" => CCall::Deep(a),
+            "ord" => CCall::Ord(a),
+            "pfs" => CCall::Prio(a),
             _ => return None,
         })
     }
@@ -453,6 +471,31 @@ pub fn do_call<F: Flav>(nodes: &[F::Node], c: CCall, e: Eid) -> CRes {
             let _ = F::search(&nodes[a as usize], &cfg, Some(&mut cb));
             CRes::Query
         }
+        CCall::Deep(a) => {
+            for tr in [false, true] {
+                if tr && !F::DIRECTED {
+                    continue;
+                }
+                let mut cfg = Cfg::new(Algo::Dfs, Mode::Path);
+                cfg.target = Some(K::MAX);
+                cfg.transpose = tr;
+                let _ = F::search(&nodes[a as usize], &cfg, None);
+            }
+            CRes::Query
+        }
+        CCall::Ord(a) => {
+            let _ = F::search(&nodes[a as usize], &Cfg::new(Algo::Pre, Mode::Nodes), None);
+            let _ = F::search(&nodes[a as usize], &Cfg::new(Algo::Post, Mode::Nodes), None);
+            CRes::Query
+        }
+        CCall::Prio(a) => {
+            for algo in [Algo::PfsMin, Algo::PfsMax] {
+                let mut cfg = Cfg::new(algo, Mode::Path);
+                cfg.target = Some(K::MAX);
+                let _ = F::search(&nodes[a as usize], &cfg, None);
+            }
+            CRes::Query
+        }
     });
     match r {
         Ok(x) => x,
@@ -646,7 +689,7 @@ where
             end = Some(RunEnd::Deadlock(table.join("; ")));
             break;
         }
-        let choice = if trace.len() < prefix.len() { prefix[trace.len()].min(enabled.len() - 1) } else { 0 };
+        let choice = if trace.len() < prefix.len() { prefix[trace.len()] % enabled.len() } else { 0 };
         trace.push((choice, enabled.len()));
         let t = enabled[choice];
         g.granted[t] = true;
@@ -716,6 +759,17 @@ pub fn explore<F: Flav>(pool: &Pool, sc: &Scenario, mode: Fairness, budget: u64)
 where
     F::Node: Send + Sync,
 {
+    explore_with::<F>(pool, sc, mode, budget, None)
+}
+
+/// `random = None`: every schedule in depth-first order (up to `budget`).  `random = Some(seed)`: `budget`
+/// schedules drawn at random (a uniformly chosen enabled worker at every lock point), for scenarios whose
+/// schedule space is far beyond any budget - a sample, always reported as budget-capped.
+pub fn explore_with<F: Flav>(pool: &Pool, sc: &Scenario, mode: Fairness, budget: u64, random: Option<u64>) -> ScnResult
+where
+    F::Node: Send + Sync,
+{
+    let mut rng = random.map(Rng::new);
     let seq = sequential_outcomes::<F>(sc);
     let mut r = ScnResult {
         seq_outcomes: seq.len(),
@@ -725,6 +779,9 @@ where
     let mut bad_sigs: Vec<String> = vec![];
     let mut prefix: Vec<usize> = vec![];
     loop {
+        if let Some(r) = rng.as_mut() {
+            prefix = (0..400).map(|_| r.below(12) as usize).collect();
+        }
         let run = execute::<F>(pool, sc, mode, &prefix);
         r.schedules += 1;
         r.lock_steps += run.steps as u64;
@@ -775,6 +832,13 @@ where
                     }
                 }
             }
+        }
+        if rng.is_some() {
+            if r.schedules >= budget {
+                r.capped = true;
+                break;
+            }
+            continue;
         }
         // next schedule in depth-first order
         let mut tr = run.trace;
